@@ -204,7 +204,7 @@ def from_tla(v):
 def canon(c):
     k = c["k"]
     if k in ("str", "par"):
-        return k + ":" + "".join(c["s"])
+        return k + ":" + "\x1f".join(c["s"])
     if k == "res":
         c = dict(c, B=sorted(c["B"]))
     return json.dumps(c, sort_keys=True, separators=(",", ":"))
@@ -217,10 +217,11 @@ def run(ctx):
     if os.environ.get("VERIF_NPROC"):
         nproc = int(os.environ["VERIF_NPROC"])
     ctx.assumptions += [
-        "strings are sequences of tokens mapped to characters by a fixed prefix-free table (Chr in spec/ConfigQuery.tla = tokChr in "
-        "the driver, cross-checked line by line); the driver checks at start-up against apricotpb.RunType_value and "
-        "strconv.ParseBool that exactly the tokens P (PHYSICS) and A (ANY) spell run type names and exactly t (true) and 0 spell "
-        "booleans among all token sequences",
+        "strings are sequences of tokens mapped to characters by a fixed table (Chr in spec/ConfigQuery.tla = tokChr in the driver, "
+        "cross-checked line by line): every printable ASCII character, NBSP, EM SPACE, e-acute, capital omega, tab, newline and the "
+        "words PHYSICS, ANY, process, true; a token sequence is judged by the characters it spells; the run type names, the "
+        "ParseBool strings and the key 'process' the model uses are compared with the real ones (Table line of the trace); "
+        "non-ASCII characters are transliterated in recorded strings",
         "existence is the file backend's Exists on a generated YAML (flow syntax) tree o2/components/<component>/<RUNTYPE>/<role>/"
         "<entry>; the four candidates exist as entries (strings), never as folders",
         "template variables have identifier names that are not utility names; entry content = literals, {{ var }} and one "
@@ -249,7 +250,8 @@ def run(ctx):
         jobs = [
             ("str-wide+near", cfg_gen(esc, ["str", "near"], INV_STR, alphabet=WIDE, maxlen=4)),
             ("str-exhaustive+catalogue", cfg_gen(esc, ["str"], INV_STR, alphabet=NARROW, maxlen=5, qsegmax=1)),
-            ("par+res+rnd-cases", cfg_gen(esc, ["par", "res", "rnd"], INV_PAR + " " + INV_RES, pmaxlen=4, pmaxpairs=2,
+            ("sweep+par+res+rnd-cases", cfg_gen(esc, ["sweep", "par", "res", "rnd"], INV_STR + " " + INV_PAR + " " + INV_RES,
+                                                pmaxlen=4, pmaxpairs=2,
                                           rndmaxparts=2)),              # every rendering case, whatever the property says
             ("rnd", cfg_gen(esc, ["rnd"], INV_RND, rndmaxparts=2)),      # stops at a counterexample when AutoEscape
         ]
@@ -261,7 +263,7 @@ def run(ctx):
         jobs = [
             ("str-exhaustive", cfg_gen(esc, ["str"], INV_STR, alphabet=NARROW, maxlen=7)),
             ("str-wide", cfg_gen(esc, ["str"], INV_STR, alphabet=[t for t in WIDE if t != "."], maxlen=5)),
-            ("str-near", cfg_gen(esc, ["near"], INV_STR)),
+            ("str-near+sweep", cfg_gen(esc, ["near", "sweep"], INV_STR + " " + INV_PAR)),
             ("par-exhaustive", cfg_gen(esc, ["par"], INV_PAR, palphabet=[t for t in PALPHA if t != "t"], pmaxlen=6)),
             ("par-catalogue", cfg_gen(esc, ["par"], INV_PAR, pmaxpairs=3)),
             ("res", cfg_gen(esc, ["res"], INV_RES, resqrt=("PHYSICS", "TECHNICAL", "ANY"), resqroles=("r", "s", "any"),
